@@ -338,8 +338,21 @@ Definition cmp_bin (k : nat) (m : dres Q) (i : impl) : nat :=
   end%nat.
 Definition P (z1 z2 pt y eta : Q) (pdg : Z) : qpart := Build_qpart (z1, z2) pt y eta pdg.
 Definition EV (l : list qpart) : event Q qpart := ((1, 0), l).
+(* a cumulant that vanishes in exact arithmetic is rounding noise in the real code: its sign (hence the `imaginary`
+   branch) is not judged, only the correlators are *)
+Definition qcum (k : nat) (evs : list (event Q qpart)) : Q :=
+  match k with
+  | 2%nat => cumulant2 Q 0 1 rplus rmult rminus Qopp rdiv qleb qltb qrpow qpart qz (fun _ => true) (fun _ => true) evs
+  | 4%nat => cumulant4 Q 0 1 rplus rmult rminus Qopp rdiv qleb qltb qrpow qpart qz (fun _ => true) (fun _ => true) evs
+  | _ => cumulant6 Q 0 1 rplus rmult rminus Qopp rdiv qleb qltb qrpow qpart qz (fun _ => true) (fun _ => true) evs
+  end.
 Definition chk_int (k : nat) (imag : string) (evs : list (event Q qpart)) (flow : impl) (corrs : list (nat * Q)) : nat :=
-  worst (cmp_int k (qintegrated evs k imag) flow :: map (fun c => cmpa (qcorr (fst c) evs) (snd c)) corrs).
+  worst ((match qintegrated evs k imag, flow with
+          | Some _, IErr => 2
+          | Some m, _ => if Qle_bool (Qabs (qcum k evs)) (1 # 1000000000000) then 0 else cmp_int k (Some m) flow
+          | None, _ => cmp_int k None flow
+          end)
+         :: map (fun c => cmpa (qcorr (fst c) evs) (snd c)) corrs)%nat.
 Definition chk_diff (k : nat) (imag sel : string) (poi : option (list Z)) (evs : list (event Q qpart))
                     (bins : list (Q * Q * impl)) : nat :=
   worst (map (fun b => cmp_bin k (qdifferential k imag sel (fst (fst b)) (snd (fst b)) poi evs) (snd b)) bins).
